@@ -13,10 +13,10 @@ func init() {
 	jobs = append(jobs, job{props: []string{"C19"}, fn: genC19Pb})
 }
 
-// pbKind classifies the Go type of a generated protobuf struct field:
+// decPbKind classifies the Go type of a generated protobuf struct field:
 // opt:<Msg> (singular message pointer, nil when absent on the wire),
 // rep:<Msg>, map:<key>:<Msg|bytes|...>, bytes, string, rep:bytes, scalar.
-func pbKind(t ast.Expr) string {
+func decPbKind(t ast.Expr) string {
 	switch x := t.(type) {
 	case *ast.StarExpr:
 		return "opt:" + exprString(x.X)
@@ -50,8 +50,8 @@ func pbKind(t ast.Expr) string {
 	return "other:" + exprString(t)
 }
 
-// hasNilTest reports whether a statement list contains `if <expr> == nil`.
-func hasNilTest(n ast.Node, expr string) bool {
+// decHasNilTest reports whether a statement list contains `if <expr> == nil`.
+func decHasNilTest(n ast.Node, expr string) bool {
 	found := false
 	ast.Inspect(n, func(m ast.Node) bool {
 		if is, ok := m.(*ast.IfStmt); ok {
@@ -65,9 +65,9 @@ func hasNilTest(n ast.Node, expr string) bool {
 	return found
 }
 
-// typeSwitchCase finds the case clause of `switch msg := X.Msg.(type)` in fd
+// decTypeSwitchCase finds the case clause of `switch msg := X.Msg.(type)` in fd
 // whose type ends in suffix.
-func typeSwitchCase(fd *ast.FuncDecl, suffix string) *ast.CaseClause {
+func decTypeSwitchCase(fd *ast.FuncDecl, suffix string) *ast.CaseClause {
 	var res *ast.CaseClause
 	ast.Inspect(fd.Body, func(n ast.Node) bool {
 		ts, ok := n.(*ast.TypeSwitchStmt)
@@ -124,7 +124,7 @@ func genC19Pb() {
 						continue
 					}
 					for _, nm := range fl.Names {
-						rows = append(rows, fmt.Sprintf("(%q, %q, %q)", ts.Name.Name, nm.Name, pbKind(fl.Type)))
+						rows = append(rows, fmt.Sprintf("(%q, %q, %q)", ts.Name.Name, nm.Name, decPbKind(fl.Type)))
 					}
 				}
 			}
@@ -173,8 +173,8 @@ func genC19Pb() {
 			fail("order.%s not found", fn)
 			continue
 		}
-		has := hasNilTest(fd.Body, "details")
-		l.p("def %sNilTest : Bool := %s", fn, leanBool(has))
+		has := decHasNilTest(fd.Body, "details")
+		l.p("def %sNilTest : Bool := %s", fn, decLeanBool(has))
 		nilChecks = nilChecks && has
 	}
 
@@ -186,7 +186,7 @@ func genC19Pb() {
 	if fd := findFunc(root, "rpcServer.handleServerMessage"); fd == nil {
 		fail("rpcServer.handleServerMessage not found")
 	} else {
-		if cc := typeSwitchCase(fd, "ServerAuctionMessage_Prepare"); cc == nil {
+		if cc := decTypeSwitchCase(fd, "ServerAuctionMessage_Prepare"); cc == nil {
 			fail("rpcServer.handleServerMessage: Prepare case not found")
 		} else {
 			// first `if err != nil` after the ParseRPCBatch assignment
@@ -200,7 +200,7 @@ func genC19Pb() {
 						ast.Inspect(is.Body, func(n ast.Node) bool {
 							if rs, ok := n.(*ast.ReturnStmt); ok && len(rs.Results) == 1 {
 								if c, ok := rs.Results[0].(*ast.CallExpr); ok && len(c.Args) > 0 {
-									callee, arg0 = callName(c), exprString(c.Args[0])
+									callee, arg0 = decCallName(c), exprString(c.Args[0])
 								}
 							}
 							return true
@@ -212,11 +212,11 @@ func genC19Pb() {
 				fail("rpcServer.handleServerMessage: reject call after ParseRPCBatch not found")
 			}
 		}
-		if cc := typeSwitchCase(fd, "ServerAuctionMessage_Sign"); cc == nil {
+		if cc := decTypeSwitchCase(fd, "ServerAuctionMessage_Sign"); cc == nil {
 			fail("rpcServer.handleServerMessage: Sign case not found")
 		} else {
 			for _, s := range cc.Body {
-				if hasNilTest(s, "batch") {
+				if decHasNilTest(s, "batch") {
 					signTest = true
 				}
 			}
@@ -224,17 +224,17 @@ func genC19Pb() {
 	}
 	l.p("def prepareParseErrCallee : String := %q", callee)
 	l.p("def prepareParseErrArg0 : String := %q", arg0)
-	l.p("def rpcServerSignNilTest : Bool := %s", leanBool(signTest))
+	l.p("def rpcServerSignNilTest : Bool := %s", decLeanBool(signTest))
 
 	// sidecar_acceptor.go: nil tests of the pending batch on the Sign path
 	accSign, accMatch := false, false
 	if fd := findFunc(root, "SidecarAcceptor.handleServerMessage"); fd == nil {
 		fail("SidecarAcceptor.handleServerMessage not found")
-	} else if cc := typeSwitchCase(fd, "ServerAuctionMessage_Sign"); cc == nil {
+	} else if cc := decTypeSwitchCase(fd, "ServerAuctionMessage_Sign"); cc == nil {
 		fail("SidecarAcceptor.handleServerMessage: Sign case not found")
 	} else {
 		for _, s := range cc.Body {
-			if hasNilTest(s, "a.pendingBatch") {
+			if decHasNilTest(s, "a.pendingBatch") {
 				accSign = true
 			}
 		}
@@ -242,9 +242,16 @@ func genC19Pb() {
 	if fd := findFunc(root, "SidecarAcceptor.matchSign"); fd == nil {
 		fail("SidecarAcceptor.matchSign not found")
 	} else {
-		accMatch = hasNilTest(fd.Body, "a.pendingBatch")
+		accMatch = decHasNilTest(fd.Body, "a.pendingBatch")
 	}
-	l.p("def acceptorSignNilTest : Bool := %s", leanBool(accSign))
-	l.p("def acceptorMatchSignNilTest : Bool := %s", leanBool(accMatch))
+	l.p("def acceptorSignNilTest : Bool := %s", decLeanBool(accSign))
+	l.p("def acceptorMatchSignNilTest : Bool := %s", decLeanBool(accMatch))
 	l.p("end Pool.Gen.C19")
+}
+
+func decLeanBool(b bool) string {
+	if b {
+		return "true"
+	}
+	return "false"
 }
